@@ -823,7 +823,7 @@ SyntaxVisitor::Action TypeChecker::visitExpressionInitializer(
     if (!isTypeAssignableFromOtherType(leftTy, rightTy, node->expression()))
         diagReporter_.IncompatibleTypesInInitialization(node->expression()->firstToken());
 
-    return Action::Quit;
+    return Action::Skip;
 }
 
 SyntaxVisitor::Action TypeChecker::visitBraceEnclosedInitializer(
